@@ -179,7 +179,7 @@ class Codec(Suite):
     go_cmd = "c31"
     coq_imports = "From GoGit Require Import Model.Eol."
     quick_n = 500
-    thorough_n = 12000
+    thorough_n = 4000
 
     def gen(self, rng, n, tier):
         cases = []
@@ -371,7 +371,7 @@ class Flow(Suite):
     go_cmd = "c31"
     coq_imports = "From GoGit Require Import Model.Eol Spec.GitConvert."
     quick_n = 300
-    thorough_n = 6000
+    thorough_n = 1500
     coq_chunk = 150
 
     def gen(self, rng, n, tier):
